@@ -170,6 +170,15 @@ class MutualInfoClimateNetwork(ClimateNetwork):
         """
         return self._cython_calculate_mutual_information(anomaly)
 
+    def _mi_file_name(self):
+        """
+        Name of the file holding the mutual information matrix for the current
+        choice of samples (the matrices for all and for winter months differ).
+        """
+        if self._winter_only and self.mi_file.endswith(".data"):
+            return self.mi_file[:-len(".data")] + "_winter.data"
+        return self.mi_file
+
     def mutual_information(self, anomaly=None, dump=True):
         """
         Return mutual information matrix at zero lag.
@@ -191,8 +200,8 @@ class MutualInfoClimateNetwork(ClimateNetwork):
                 print("Loading mutual information matrix from "
                       f"{self.mi_file}...")
 
-            with open(self.mi_file, 'r', encoding="utf-8") as f:
-                mi = np.load(f)
+            with open(self._mi_file_name(), 'rb') as f:
+                mi = np.load(f, allow_pickle=True)
                 #  Check if the dimensions of mutual_information correspond to
                 #  the grid.
                 if mi.shape != (self.N, self.N):
@@ -200,17 +209,22 @@ class MutualInfoClimateNetwork(ClimateNetwork):
                           "incorrect dimensions!")
                     raise RuntimeError
 
-        except (IOError, RuntimeError):
+        except (IOError, RuntimeError, EOFError, ValueError):
             if self.silence_level <= 1:
                 print("An error occured while loading data from "
                       f"{self.mi_file}.")
                 print("Recalculating mutual information.")
 
+            if anomaly is None:
+                if self._winter_only:
+                    anomaly = self.data.anomaly_selected_months([0, 1, 11])
+                else:
+                    anomaly = self.data.anomaly()
             mi = self._cython_calculate_mutual_information(anomaly)
             if dump:
-                with open(self.mi_file, 'w', encoding="utf-8") as f:
+                with open(self._mi_file_name(), 'wb') as f:
                     if self.silence_level <= 1:
-                        print("Storing in", self.mi_file)
+                        print("Storing in", self._mi_file_name())
                     mi.dump(f)
 
         return mi
